@@ -19,6 +19,16 @@ impl<R> ns_::NsReader<R> {
         &&& self.ns_resolver.wf()
         &&& self.ns_resolver.nesting_level as int == self.reader.state.stack().len() + (if self.pending_pop { 1int } else { 0int })
     }
+    /// how `inv` is established for a newly made reader
+    pub(crate) proof fn lemma_inv_intro(&self)
+        requires self.reader.inv(), self.ns_resolver.wf(),
+            self.ns_resolver.nesting_level as int == self.reader.state.stack().len() + (if self.pending_pop { 1int } else { 0int }),
+        ensures self.inv()
+    {}
+    pub(crate) proof fn lemma_inv_intro_all()
+        ensures forall|x: Self| x.reader.inv() && x.ns_resolver.wf()
+            && x.ns_resolver.nesting_level as int == x.reader.state.stack().len() + (if x.pending_pop { 1int } else { 0int }) ==> #[trigger] x.inv()
+    {}
     /// what `inv` says, for the callers outside this module (the serde event sources, C14)
     pub(crate) proof fn lemma_inv(&self)
         requires self.inv()
